@@ -86,7 +86,7 @@ def main():
         hooks=dict(guard="XCM_VERIF",
                    enable="no source hooks are needed: the checks compile /repo's working tree into each harness with "
                           "-DXCM_VERIF=1 and interpose libc/c-ares at link time (-Wl,--wrap)",
-                   baseline_off_cmd="cd /repo && make -j16 >/dev/null 2>&1; ./xcmtest -c -v -p 8",
+                   baseline_off_cmd="cd /repo && make -j16 >/dev/null 2>&1 && make -j16 xcmtest >/dev/null 2>&1; ./xcmtest -c -v -p 8",
                    source_commits=[], add_only=True),
         engines=[dict(name="mcx-explorer", path="engine/mcx",
                       serves_properties=sorted(p for p, c in CHECKS.items() if c["engine"] == "mcx-explorer"),
